@@ -6,6 +6,13 @@
 (*   LookupHit(r)       BlockRootToSlot, entry present (read under blockRootToSlotMu.RLock)     *)
 (*   LookupMissOk(r)    BlockRootToSlot, entry absent, header fetch succeeds                    *)
 (*   LookupMissErr(r)   BlockRootToSlot, entry absent, header fetch fails                       *)
+(*   CtlBlockEvent(r)   the controller's HandleBlockEvent: the second writer, it hands the      *)
+(*                      event's (root, slot) to SetBlockRootToSlot of the same cache             *)
+(*   HeadEvent(r, ok)   handleHead: a beacon node announces head r; the cache fetches the       *)
+(*                      signed block (ok / fails) to learn the execution chain head.  The block *)
+(*                      names its PARENT root; the parent's slot is NOT head slot - 1 (slots    *)
+(*                      can be skipped): whatever handleHead caches must be the truth           *)
+(*   ExecHead           ExecutionChainHead, the query the proposer's auction uses               *)
 (*   Clean              cleanBlockRootToSlot, the periodic job                                  *)
 (*   Advance(t)         the clock                                                               *)
 (* Property C18: a lookup that reports a slot reports the slot of the block with that root      *)
@@ -17,14 +24,21 @@ CONSTANTS Roots,          \* set of block roots
           Slots,          \* slots a block can have (ground truth range)
           Nows,           \* clock positions the environment may move to
           SlotsPerEpoch,
-          Retention       \* epochs kept by Clean (64 in the code)
+          Retention,      \* epochs kept by Clean (64 in the code)
+          NoRoot,         \* "no block": parent of a block outside Roots, execution head before any payload
+          HasPayload,     \* the blocks that carry an execution payload (Bellatrix and later, merged)
+          Deviation       \* "none" | named control design (vacuity self-check), see HeadEvent
 
 VARIABLES chain,   \* ground truth: [Roots -> Slots], the slot of the block with that root
+          parent,  \* ground truth: [Roots -> Roots \cup {NoRoot}], the parent of that block (an EARLIER slot,
+                   \*   not necessarily the previous one)
           map,     \* the cache: function from a subset of Roots to slots
           now,     \* current slot
+          ehead,   \* the block whose execution payload the cache reports as execution chain head
+          heads,   \* head blocks announced so far whose signed block was obtained (history, for ExecHeadSound)
           last     \* last reply handed to a caller (observation only)
 
-vars == <<chain, map, now, last>>
+vars == <<chain, parent, map, now, ehead, heads, last>>
 
 Epoch(s) == s \div SlotsPerEpoch
 FirstSlot(e) == e * SlotsPerEpoch
@@ -36,35 +50,72 @@ Restrict(m, D) == [x \in D |-> m[x]]
 NoReply == [op |-> "none"]
 SlotReply(r, s) == [op |-> "lookup", root |-> r, ok |-> TRUE, slot |-> s]
 ErrReply(r) == [op |-> "lookup", root |-> r, ok |-> FALSE, slot |-> -1]
+ExecReply(h) == [op |-> "exec", head |-> h]
+
+\* the blocks a parent function may name: an earlier slot, or a block outside the model
+ParentsOK(c, p) == \A r \in Roots : p[r] # NoRoot => c[p[r]] < c[r]
 
 \* Environment assumption Env_TruthfulNode: block events and headers carry the block's real slot.
 Init ==
     /\ chain \in [Roots -> Slots]
+    /\ parent \in {p \in [Roots -> Roots \cup {NoRoot}] : ParentsOK(chain, p)}
     /\ map = Empty
     /\ now \in Nows
+    /\ ehead = NoRoot /\ heads = {}
     /\ last = NoReply
 
 BlockEvent(r) ==
     /\ map' = Put(map, r, chain[r])
     /\ last' = NoReply
-    /\ UNCHANGED <<chain, now>>
+    /\ UNCHANGED <<chain, parent, now, ehead, heads>>
+
+\* services/controller/standard/events.go HandleBlockEvent: same event stream, same cache, another caller
+CtlBlockEvent(r) == BlockEvent(r)
+
+PutTruth(m, S) == [x \in (DOMAIN m) \cup S |-> IF x \in S THEN chain[x] ELSE m[x]]
+
+\* handleHead.  The property does not oblige the handler to cache anything (today it does not), and does not
+\* forbid it to: the head event carries (r, slot of r), the fetched block names its parent.  What it caches
+\* must be the truth.  The control design "ParentAtPrevSlot" files the parent under head slot - 1: right
+\* whenever no slot was skipped, and TLC must reject it (MapSound) - the check runs it as a self-check.
+HeadEvent(r, ok) ==
+    /\ IF Deviation = "ParentAtPrevSlot" /\ ok /\ parent[r] # NoRoot /\ parent[r] \notin DOMAIN map /\ chain[r] > 0
+       THEN map' = Put(Put(map, r, chain[r]), parent[r], chain[r] - 1)
+       ELSE \E S \in SUBSET (IF ok THEN {r, parent[r]} \ {NoRoot} ELSE {r}) : map' = PutTruth(map, S)
+    /\ heads' = IF ok THEN heads \cup {r} ELSE heads
+    \* the code takes the head's payload if it has one (and the block could be fetched); no listed property
+    \* obliges it to, so keeping the old head is allowed: the statement is ExecHeadSound below
+    /\ ehead' \in (IF ok /\ r \in HasPayload THEN {r, ehead} ELSE {ehead})
+    /\ last' = NoReply
+    /\ UNCHANGED <<chain, parent, now>>
+
+\* services/controller/standard/events.go HandleHeadEvent: the head event carries (r, slot of r) and the roots
+\* of earlier blocks (duty dependent roots) WITHOUT their slots; it writes nothing to the cache today
+CtlHeadEvent(r) ==
+    /\ \E S \in SUBSET ({r, parent[r]} \ {NoRoot}) : map' = PutTruth(map, S)
+    /\ last' = NoReply
+    /\ UNCHANGED <<chain, parent, now, ehead, heads>>
+
+ExecHead ==
+    /\ last' = ExecReply(ehead)
+    /\ UNCHANGED <<chain, parent, map, now, ehead, heads>>
 
 LookupHit(r) ==
     /\ r \in DOMAIN map
     /\ last' = SlotReply(r, map[r])
-    /\ UNCHANGED <<chain, map, now>>
+    /\ UNCHANGED <<chain, parent, map, now, ehead, heads>>
 
 \* The property does not oblige the cache to remember a fetched header, only to answer right.
 LookupMissOk(r) ==
     /\ r \notin DOMAIN map
     /\ map' \in {map, Put(map, r, chain[r])}
     /\ last' = SlotReply(r, chain[r])
-    /\ UNCHANGED <<chain, now>>
+    /\ UNCHANGED <<chain, parent, now, ehead, heads>>
 
 LookupMissErr(r) ==
     /\ r \notin DOMAIN map
     /\ last' = ErrReply(r)
-    /\ UNCHANGED <<chain, map, now>>
+    /\ UNCHANGED <<chain, parent, map, now, ehead, heads>>
 
 Old(m, t) == IF Epoch(t) > Retention
              THEN {r \in DOMAIN m : m[r] < FirstSlot(Epoch(t) - Retention)}
@@ -74,16 +125,18 @@ Old(m, t) == IF Epoch(t) > Retention
 Clean ==
     /\ \E S \in SUBSET Old(map, now) : map' = Restrict(map, (DOMAIN map) \ S)
     /\ last' = NoReply
-    /\ UNCHANGED <<chain, now>>
+    /\ UNCHANGED <<chain, parent, now, ehead, heads>>
 
 Advance(t) ==
     /\ t \in Nows /\ t > now
     /\ now' = t
     /\ last' = NoReply
-    /\ UNCHANGED <<chain, map>>
+    /\ UNCHANGED <<chain, parent, map, ehead, heads>>
 
 Next ==
     \/ \E r \in Roots : BlockEvent(r) \/ LookupHit(r) \/ LookupMissOk(r) \/ LookupMissErr(r)
+    \/ \E r \in Roots : CtlBlockEvent(r) \/ CtlHeadEvent(r) \/ HeadEvent(r, TRUE) \/ HeadEvent(r, FALSE)
+    \/ ExecHead
     \/ Clean
     \/ \E t \in Nows : Advance(t)
 
@@ -93,6 +146,7 @@ Spec == Init /\ [][Next]_vars
 TypeOK ==
     /\ DOMAIN map \subseteq Roots
     /\ now \in Nows
+    /\ ehead \in Roots \cup {NoRoot}
 
 \* every cached entry is the truth
 MapSound == \A r \in DOMAIN map : map[r] = chain[r]
@@ -102,6 +156,11 @@ LookupRight == (last.op = "lookup" /\ last.ok) => last.slot = chain[last.root]
 
 \* C18: a failed fetch is reported as an error, not as a slot
 ErrorNotSlot == (last.op = "lookup" /\ ~last.ok) => last.slot = -1
+
+\* the execution chain head handed to the auction is the payload of a block that was announced as head
+\* and obtained (never of a block the node did not announce, never before any head had a payload)
+ExecHeadSound == /\ ehead # NoRoot => (ehead \in heads /\ ehead \in HasPayload)
+                 /\ last.op = "exec" => last.head = ehead
 
 \* C18: only entries older than the retention window ever disappear
 CleanOnlyOldStep ==
